@@ -19,7 +19,8 @@ Inductive lstmt :=
 | LFromH (m : nat) (h : nat) (* from <module m> import <helper h>: a re-export *)
 | LFrom (m : nat) (k : nat)  (* from <module m> import K<k> *)
 | LStar (m : nat)            (* from <module m> import * *)
-| LClass (k : nat).          (* class K<k>(...) *)
+| LClass (k : nat)           (* class K<k>(...) *)
+| LClassAs (k : nat) (n : nat). (* class object k defined under the NAME of class n: `class K<n>(...)` once more *)
 Record lmod := mklmod { l_stmts : list lstmt; l_all : option (list nat) }.    (* __all__ = ["K<k>", ...] if any *)
 Definition layout := list lmod.
 
@@ -51,6 +52,7 @@ Fixpoint visit_from (line : nat) (l : list lstmt) (sc : scope) (stars : list (na
   | LFromH m h :: r => visit_from (S line) r (upd e_name sc (mke h (BAlias m h) line)) stars
   | LFrom m k :: r => visit_from (S line) r (upd e_name sc (mke (cname k) (BAlias m (cname k)) line)) stars
   | LClass k :: r => visit_from (S line) r (upd e_name sc (mke (cname k) (BDef k) line)) stars
+  | LClassAs k n :: r => visit_from (S line) r (upd e_name sc (mke (cname n) (BDef k) line)) stars
   | LStar m :: r => visit_from (S line) r sc (stars ++ [(line, m)])
   end.
 Definition visit (md : lmod) : scope * list (nat * nat) := visit_from 0 (l_stmts md) [] [].
@@ -123,6 +125,11 @@ Fixpoint resolve (fuel : nat) (expanded : bool) (L : layout) (m n : nat) : optio
   end.
 Definition base_resolves (expanded : bool) (L : layout) (m b : nat) : bool :=
   match resolve (S (S (List.length L))) expanded L m (cname b) with Some k => Nat.eqb k b | None => false end.
+
+(* finding C18-F12, exactly: the base name n of class object k resolves - in the final namespace of the module, the only one
+   Griffe has - to class k ITSELF (Class.mro() then raises: inheritance cycle) *)
+Definition self_resolved (expanded : bool) (L : layout) (m k n : nat) : bool :=
+  match resolve (S (S (List.length L))) expanded L m (cname n) with Some k' => Nat.eqb k' k | None => false end.
 
 (* the table as the extension effectively reads it: `where_ i` = the module defining class i, `bases i` its base names *)
 Definition seen_ok (expanded : bool) (L : layout) (m : nat) (c : cls) (bases : list nat) : bool :=
